@@ -165,6 +165,7 @@ type target struct {
 	// before it is read (the ReadN that follows), as in readMessage
 	funs     map[string]int    // callee text -> index of the *bytes.Buffer argument it writes to: the callee is a function parameter
 	// `args → (new buffer × result)` (an input of the definition, like an oracle, but depending on its arguments)
+	fromLit  string              // segment anchor: the segment starts with the first statement of the function literal inside the statement with this prefix
 	freeStmt map[string][]string // like free, for calls in statement position: the function parameter takes the call's arguments
 	calls    map[string]bool     // callee text -> the callee is a function parameter applied to the translated arguments (a struct literal argument is flattened into its fields); its results are bound by `a, b := callee(…)`
 	// and the result of everything that follows (`callee args rest : R`)
@@ -241,8 +242,8 @@ var targets = []target{
 		oracles: map[string]string{"internal.AlphabetNumeric.Uint32()": "maskNum"},
 		doc: "genFrame for a payload given as its bytes: the checks, the padded buffer, header back-fill and masking of an uncompressed frame; compressData is left uninterpreted"},
 	{pkg: "gws", fn: "Conn.doWrite", lean: "Conn_doWrite_head",
-		from: "if opcode != OpcodeCloseConnection && c.isClosed() {", to: "err = internal.WriteN(c.conn, frame.Bytes())",
-		skip:    []string{`verifSched("w.write", c)`},
+		fromAfter: "defer c.mu.Unlock()", to: "err = internal.WriteN(c.conn, frame.Bytes())",
+		skip:      []string{`verifSched("w.write", c)`},
 		oracles: map[string]string{"c.isClosed()": "closed"},
 		calls:   map[string]bool{"c.genFrame": true},
 		liveOut: []string{"frame"},
@@ -257,7 +258,7 @@ var targets = []target{
 		from: "if n := buf.Len(); n >= 4", to: "var err = c.cb(", liveOut: []string{"buf"},
 		doc: "the removal of the sync-flush trailer 00 00 ff ff from the aggregated output of a streamed compressed message, before the last frame is built"},
 	{pkg: "gws", fn: "Conn.doWriteFile", lean: "Conn_doWriteFile_frame",
-		from: "if index > 0 {", to: "err = internal.WriteN(c.conn, frame.Bytes())",
+		fromLit: "var cb = func(", to: "err = internal.WriteN(c.conn, frame.Bytes())",
 		skip:    []string{`verifSched("f.check", c)`},
 		oracles: map[string]string{"c.isClosed()": "closed"},
 		calls:   map[string]bool{"c.genFrame": true},
@@ -485,6 +486,7 @@ func isStatusCode(t types.Type) bool {
 
 // fn is one function (or segment) being translated
 type fn struct {
+	loopK    cont // inside the body of a folded range loop: what `continue` yields (the accumulator)
 	tr       *translator
 	p        *pkgInfo
 	decl     *ast.FuncDecl
@@ -1362,6 +1364,9 @@ func hasReturn(n ast.Node) bool {
 		if _, ok := x.(*ast.ReturnStmt); ok {
 			found = true
 		}
+		if b, ok := x.(*ast.BranchStmt); ok && b.Tok == token.CONTINUE { // leaves the body of a folded loop early: like a return
+			found = true
+		}
 		if _, ok := x.(*ast.FuncLit); ok {
 			return false
 		}
@@ -1580,6 +1585,12 @@ func (f *fn) block(list []ast.Stmt, k cont) string {
 	}
 	if _, ok := s.(*ast.DeferStmt); ok {
 		f.bad(s, "defer")
+	}
+	if b, ok := s.(*ast.BranchStmt); ok && b.Tok == token.CONTINUE && b.Label == nil {
+		if f.loopK == nil {
+			f.bad(s, "continue outside a folded range loop")
+		}
+		return f.loopK()
 	}
 	// `*(*[]byte)(unsafe.Pointer(buf)) = p` (internal.BufferReset inlined): the buffer now holds exactly p
 	if as, ok := s.(*ast.AssignStmt); ok && len(as.Lhs) == 1 && strings.HasPrefix(strings.Join(strings.Fields(f.src(as.Lhs[0])), ""), "*(*[]byte)(unsafe.Pointer(") {
@@ -1852,6 +1863,19 @@ func (f *fn) block(list []ast.Stmt, k cont) string {
 							continue
 						}
 					}
+					if id, ok := a.(*ast.Ident); ok && f.localStruct[id.Name] != nil {
+						if stt, ok := f.typeOf(a).Underlying().(*types.Struct); ok {
+							for i := 0; i < stt.NumFields(); i++ {
+								lt, ok := f.tr.leanType(stt.Field(i).Type())
+								if !ok {
+									f.bad(a, "struct argument with a field of unsupported type")
+								}
+								args = append(args, leanIdent(id.Name)+"_"+stt.Field(i).Name())
+								tys = append(tys, lt)
+							}
+							continue
+						}
+					}
 					args = append(args, f.expr(a))
 					tys = append(tys, f.lt(a))
 				}
@@ -2118,7 +2142,7 @@ func (f *fn) block(list []ast.Stmt, k cont) string {
 				case *ast.ReturnStmt, *ast.ForStmt, *ast.RangeStmt, *ast.FuncLit, *ast.DeferStmt, *ast.GoStmt, *ast.LabeledStmt:
 					bad = true
 				case *ast.BranchStmt:
-					if b.Tok != token.FALLTHROUGH { // fallthrough is refused by the switch desugaring
+					if b.Tok != token.FALLTHROUGH && !(b.Tok == token.CONTINUE && b.Label == nil) { // fallthrough is refused by the switch desugaring; `continue` ends this iteration with the accumulator as it is
 						bad = true
 					}
 				}
@@ -2136,7 +2160,10 @@ func (f *fn) block(list []ast.Stmt, k cont) string {
 			f.flush(&sb)
 			f.locals[xv.Name] = true
 			t := tuple(vars)
+			saveK := f.loopK
+			f.loopK = func() string { return t }
 			body := f.block(st.Body.List, func() string { return t })
+			f.loopK = saveK
 			fmt.Fprintf(&sb, "let %s := (%s).foldl (fun %s %s =>\n%s) %s\n", t, coll, t, leanIdent(xv.Name), indent(body), t)
 			return sb.String() + next()
 		}
@@ -2658,7 +2685,7 @@ func (tr *translator) translate(key string) *result {
 		}
 	}
 	stmts := decl.Body.List
-	if t.from != "" || t.fromAfter != "" {
+	if t.from != "" || t.fromAfter != "" || t.fromLit != "" {
 		f.segment = true
 		// the statement list (function body, nested block or case body) that contains the first anchor
 		var lists [][]ast.Stmt
@@ -2673,8 +2700,31 @@ func (tr *translator) translate(key string) *result {
 		})
 		lo, hi := -1, 0
 		foundToAfter := false
+		if t.fromLit != "" {
+			// the segment starts with the first statement of the function literal in the statement that begins with fromLit
+			var body []ast.Stmt
+			for _, l := range lists {
+				for _, s := range l {
+					if body == nil && strings.HasPrefix(f.stmtText(s), t.fromLit) {
+						ast.Inspect(s, func(n ast.Node) bool {
+							if fl, ok := n.(*ast.FuncLit); ok && body == nil {
+								body = fl.Body.List
+							}
+							return body == nil
+						})
+					}
+				}
+			}
+			if body == nil {
+				fail("%s: no function literal in a statement starting with `%s`", key, t.fromLit)
+			}
+			lists = [][]ast.Stmt{body}
+		}
 		for _, l := range lists {
 			for i, s := range l {
+				if lo < 0 && t.fromLit != "" {
+					lo, hi, stmts = 0, len(l), l
+				}
 				if lo < 0 && t.from != "" && strings.HasPrefix(f.stmtText(s), t.from) {
 					lo, hi, stmts = i, len(l), l
 					continue
@@ -2895,6 +2945,7 @@ func main() {
 	out := flag.String("lean", "", "output Trans.lean")
 	cover := flag.String("cover", "", "write the source line ranges of the translated functions / segments (one per line) to this file")
 	dequeOut := flag.String("deque", "", "output TransDeque.lean (the deque dialect, deque.go)")
+	fwOut := flag.String("fw", "", "output TransFW.lean (the buffer-list dialect, fw.go)")
 	flag.Parse()
 	abs, _ := filepath.Abs(*repo)
 	fset := token.NewFileSet()
@@ -2904,7 +2955,7 @@ func main() {
 	var keys []string
 	for _, t := range targets {
 		key := t.pkg + "." + t.fn
-		if t.from != "" || t.fromAfter != "" {
+		if t.from != "" || t.fromAfter != "" || t.fromLit != "" {
 			key += "#" + t.lean
 		} else {
 			tr.byFunc[key] = key
@@ -2922,6 +2973,9 @@ func main() {
 		doc := r.t.pkg + "." + r.t.fn
 		if r.t.from != "" {
 			doc += fmt.Sprintf(" — statements from `%s` up to (not including) `%s`", r.t.from, r.t.to)
+		}
+		if r.t.fromLit != "" {
+			doc += fmt.Sprintf(" — the body of the function literal in `%s…` up to (not including) `%s`", r.t.fromLit, r.t.to)
 		}
 		if r.t.fromAfter != "" {
 			doc += fmt.Sprintf(" — statements behind `%s` up to (not including) `%s`", r.t.fromAfter, r.t.to)
@@ -2944,6 +2998,11 @@ func main() {
 	sb.WriteString("end Trans\n")
 	if *dequeOut != "" {
 		if err := os.WriteFile(*dequeOut, []byte(translateDeque(tr.pkgs["internal"])), 0o644); err != nil {
+			fail("%v", err)
+		}
+	}
+	if *fwOut != "" {
+		if err := os.WriteFile(*fwOut, []byte(translateFW(tr.pkgs["gws"])), 0o644); err != nil {
 			fail("%v", err)
 		}
 	}
